@@ -1,8 +1,31 @@
-import DendroModel.Basic.Tree
-open DendroModel
+import DendroModel.Model.C04
+open DendroModel DendroModel.C04
+
+def parseRooted (s : String) : Option (Option Bool) :=
+  if s == "R" then some (some true) else if s == "U" then some (some false) else if s == "N" then some none else none
+
+def optRat : Option Rat → String
+  | none => "E"
+  | some q => renderRat q
 
 def handle (ws : List String) : String :=
   match ws with
+  -- dist <rooting1> <rooting2> <tree1> <tree2>  ->  fp fn wrf euclid² | sorted missing(ref=tree1, cmp=tree2)
+  | "dist" :: r1 :: r2 :: rest =>
+    match parseRooted r1, parseRooted r2, parseTree rest with
+    | some r1, some r2, some (t1, rest2) =>
+      match parseTree rest2 with
+      | some (t2, []) =>
+        let e1 := edgeRecs r1 t1
+        let e2 := edgeRecs r2 t2
+        let s1 := e1.map (·.split)
+        let s2 := e2.map (·.split)
+        let m1 := edgeMap e1
+        let m2 := edgeMap e2
+        let (fp, fn) := fpfn s1 s2
+        s!"{fp} {fn} {optRat (wrf m1 m2)} {optRat (euclidSq m1 m2)} | " ++ " ".intercalate ((missing s1 s2).map toString)
+      | _ => "bad-op"
+    | _, _, _ => "bad-op"
   | _ => "bad-op"
 
 def main : IO Unit := do driverLoop (← IO.getStdin) handle
